@@ -307,9 +307,15 @@ const basePrelude = `(set-option :produce-models true)
 
 // SMT renders the query for an obligation.
 func (o *Obligation) SMT() string {
+	text := o.smtBody()
+	return pruneDecls(o.vc.W, text)
+}
+
+func (o *Obligation) smtBody() string {
 	vc := o.vc
 	var sb strings.Builder
 	sb.WriteString(basePrelude)
+	sb.WriteString("; ---- declarations (pruned to those used below) ----\n")
 	for _, d := range vc.W.Sorts.Decls() {
 		sb.WriteString(d)
 		sb.WriteByte('\n')
@@ -317,6 +323,7 @@ func (o *Obligation) SMT() string {
 	sb.WriteString(vc.W.ioEOFDecl())
 	sb.WriteString(vc.W.subRefDecls())
 	sb.WriteString(vc.W.appDeclLines())
+	sb.WriteString("; ---- end declarations ----\n")
 	// string literals used directly by the VC
 	var ls []string
 	for l := range vc.usedLits {
@@ -506,5 +513,118 @@ func substSymbols(text string, names, values []string) string {
 		}
 		i = j
 	}
+	return sb.String()
+}
+
+// pruneDecls removes, from the declaration section, every datatype, box/unbox,
+// elt, sub-object and callback declaration whose symbols do not occur in the
+// rest of the query (transitively through datatype field sorts).  The query
+// text then depends only on what the obligation itself mentions.
+func pruneDecls(w *World, text string) string {
+	const begin = "; ---- declarations (pruned to those used below) ----\n"
+	const end = "; ---- end declarations ----\n"
+	i := strings.Index(text, begin)
+	j := strings.Index(text, end)
+	if i < 0 || j < 0 {
+		return text
+	}
+	head, decls, rest := text[:i], text[i+len(begin):j], text[j+len(end):]
+	lines := strings.Split(strings.TrimSuffix(decls, "\n"), "\n")
+	// group lines into units keyed by the symbols they declare
+	type unit struct {
+		lines []string
+		syms  []string
+	}
+	var units []*unit
+	symOf := func(l string) []string {
+		switch {
+		case strings.HasPrefix(l, "(declare-datatypes (("):
+			name := l[len("(declare-datatypes (("):]
+			name = name[:strings.Index(name, " ")]
+			return []string{name}
+		case strings.HasPrefix(l, "(declare-fun "), strings.HasPrefix(l, "(declare-const "):
+			f := strings.Fields(l)
+			return []string{f[1]}
+		}
+		return nil
+	}
+	prevDecl := false
+	for _, l := range lines {
+		if l == "" {
+			continue
+		}
+		if syms := symOf(l); syms != nil {
+			// function declarations come in runs followed by the assertions that
+			// axiomatise them: one unit per run
+			isData := strings.HasPrefix(l, "(declare-datatypes")
+			if prevDecl && !isData && len(units) > 0 && !strings.HasPrefix(units[len(units)-1].lines[0], "(declare-datatypes") {
+				u := units[len(units)-1]
+				u.lines = append(u.lines, l)
+				u.syms = append(u.syms, syms...)
+			} else {
+				units = append(units, &unit{lines: []string{l}, syms: syms})
+			}
+			prevDecl = !isData
+		} else if len(units) > 0 {
+			u := units[len(units)-1]
+			u.lines = append(u.lines, l)
+			prevDecl = false
+		}
+	}
+	// merge box!/unbox! pairs and sub!/sub!inv pairs (assertion mentions both)
+	used := func(sym string, hay string) bool {
+		idx := 0
+		for {
+			k := strings.Index(hay[idx:], sym)
+			if k < 0 {
+				return false
+			}
+			k += idx
+			endc := k + len(sym)
+			okL := k == 0 || strings.ContainsRune(" ()", rune(hay[k-1]))
+			okR := endc >= len(hay) || strings.ContainsRune(" ()", rune(hay[endc]))
+			if okL && okR {
+				return true
+			}
+			idx = k + 1
+		}
+	}
+	keep := make([]bool, len(units))
+	body := rest
+	changed := true
+	for changed {
+		changed = false
+		for k, u := range units {
+			if keep[k] {
+				continue
+			}
+			need := false
+			for _, sym := range u.syms {
+				if used(sym, body) {
+					need = true
+				}
+				// datatype: constructor / selectors
+				if strings.HasPrefix(u.lines[0], "(declare-datatypes") && (used("mk!"+sym, body) || strings.Contains(body, sym+"!")) {
+					need = true
+				}
+			}
+			if need {
+				keep[k] = true
+				changed = true
+				body += "\n" + strings.Join(u.lines, "\n")
+			}
+		}
+	}
+	var sb strings.Builder
+	sb.WriteString(head)
+	for k, u := range units {
+		if keep[k] || u.syms[0] == "Slice" || u.syms[0] == "Iface" || u.syms[0] == "io.EOF!" || u.syms[0] == "subtag!" {
+			for _, l := range u.lines {
+				sb.WriteString(l)
+				sb.WriteByte('\n')
+			}
+		}
+	}
+	sb.WriteString(rest)
 	return sb.String()
 }
